@@ -62,9 +62,15 @@ def place(g, qs, n):
     return full
 
 
+LABEL_TYPE = [None]       # set by a driver: gates are then declared with numpy integer labels of this type
+
+
 def make_gate(be, it, n, variant=0):
     C = be.circuit
     qs0 = [q - 1 for q in it["qs"]]
+    if LABEL_TYPE[0]:
+        import numpy
+        qs0 = [getattr(numpy, LABEL_TYPE[0])(q) for q in qs0]
     how = it["how"]
     if how.startswith("named:") and not hasattr(C, "CNOT"):
         how = "fwd"          # torchclifford has no named constructors: specify the table as a forward map
